@@ -57,9 +57,24 @@ let handlers : (string * (string list -> string -> verdict)) list = [
             | ValueDec.EJson -> "json" | ValueDec.EEmptyRid -> "emptyrid" | ValueDec.EAmbiguous -> "ambiguous"
             | ValueDec.EInvalidRid -> "invalidrid" | ValueDec.EUnknownAction -> "unknownaction"
             | ValueDec.EObjectNotAllowed -> "objectnotallowed" | ValueDec.EArrayNotAllowed -> "arraynotallowed")) in
-      (* spec on the implementation's own answer: an accepted object names exactly one of rid / action / data among
-         its effective members, and a reference's rid is the last string given for rid *)
-      { model = m; spec_ok = None; nontrivial = L.length pm > 1 }
+      (* spec on the implementation's own answer (C15_value_accepted_has_one_marker, C15_value_reference_sound): an
+         accepted object was read without type error and names exactly one of rid / action / data; a reference's
+         rid is the one read, non-empty and valid *)
+      let pre k = S.length impl >= S.length k && S.sub impl 0 (S.length k) = k in
+      let spec = (match t with
+        | ValueDec.TObj ms ->
+          let f = ValueDec.read ms in
+          if pre "E:" then true
+          else (not f.ValueDec.f_err) && int_of_nat (ValueDec.markers f) = 1
+               && (if pre "ref|" || pre "soft|" then
+                     (match f.ValueDec.f_rid with
+                      | Some r -> r <> [] && Rid.is_valid_rid r true && f.ValueDec.f_soft = pre "soft|"
+                                  && (match S.split_on_char '|' impl with _ :: x :: _ -> x = hx r | _ -> false)
+                      | None -> false)
+                   else f.ValueDec.f_rid = None)
+        | ValueDec.TArr -> pre "E:"
+        | ValueDec.TOther -> pre "prim|") in
+      { model = m; spec_ok = Some spec; nontrivial = L.length pm > 1 }
     | _ -> failwith "args");
   "get_dec", (fun args impl -> match args with
     | [syn; err; res; _payload] ->
@@ -79,7 +94,17 @@ let handlers : (string * (string list -> string -> verdict)) list = [
         | RespDec.GColl n -> "coll:" ^ string_of_int (int_of_nat n)
         | RespDec.GService e -> "svc:" ^ string_of_int (int_of_nat e)
         | RespDec.GJson -> "json" | RespDec.GMissingResult -> "missing" | RespDec.GInvalid -> "invalid") in
-      { model = m; spec_ok = None; nontrivial = res <> "-" }
+      (* spec on the implementation's own answer (the statements of C15_get_response_*_sound / _complete) *)
+      let proper_all l = L.for_all RespDec.proper l in
+      let pre k = S.length impl > S.length k && S.sub impl 0 (S.length k) = k in
+      let num k = int_of_string (S.sub impl (S.length k) (S.length impl - S.length k)) in
+      let clean = p.RespDec.gp_syntax_ok && p.RespDec.gp_error = None in
+      let spec = (match result with
+        | Some { RespDec.g_model = Some ml; RespDec.g_coll = None } when clean && proper_all ml -> impl = "model:" ^ string_of_int (L.length ml)
+        | Some { RespDec.g_model = None; RespDec.g_coll = Some cl } when clean && proper_all cl -> impl = "coll:" ^ string_of_int (L.length cl)
+        | _ -> not (pre "model:" || pre "coll:")) in
+      ignore num;
+      { model = m; spec_ok = Some spec; nontrivial = res <> "-" }
     | _ -> failwith "args");
   "call_dec", (fun args impl -> match args with
     | [syn; err; rid; raw; _payload] ->
@@ -93,7 +118,15 @@ let handlers : (string * (string list -> string -> verdict)) list = [
         | RespDec.CResource r -> "rid:" ^ hex (string_of_chars r)
         | RespDec.CService e -> "svc:" ^ string_of_int (int_of_nat e)
         | RespDec.CJson -> "json" | RespDec.CMissingResult -> "missing" | RespDec.CInvalid -> "invalid") in
-      { model = m; spec_ok = None; nontrivial = rid <> "-" || raw <> "-" }
+      (* spec on the implementation's own answer (C15_call_response_resource_sound / _result_sound) *)
+      let pre k = S.length impl >= S.length k && S.sub impl 0 (S.length k) = k in
+      let clean = p.RespDec.cp_syntax_ok && p.RespDec.cp_error = None in
+      let spec =
+        (if pre "rid:" then clean && (match p.RespDec.cp_resource with
+            | Some r -> impl = "rid:" ^ hex (string_of_chars r) && Rid.is_valid_rid r true | None -> false)
+         else if pre "res:" then clean && p.RespDec.cp_resource = None && raw <> "-" && impl = "res:" ^ tail raw
+         else true) in
+      { model = m; spec_ok = Some spec; nontrivial = rid <> "-" || raw <> "-" }
     | _ -> failwith "args");
   "valid_rid", (fun args impl -> match args with
     | [rid; aq] ->
